@@ -176,6 +176,7 @@ static void run_case(const Geom &g, const Opt &o, bool emit, int big_threshold) 
 
   // ---- skip-transform view (C10)
   std::string sk = "[";
+  int skip_missing = 0;
   bool rest_same = true;
   std::string rest_why;
   if (d1.ok && ds.ok && !skip.empty()) {
@@ -189,6 +190,17 @@ static void run_case(const Geom &g, const Opt &o, bool emit, int big_threshold) 
       const bool skipped_type = std::find(skip.begin(), skip.end(), na->attribute_type()) != skip.end();
       const PointAttribute *sa_pos = sp.attribute(a);
       const bool has_transform = sa_pos->GetAttributeTransformData() != nullptr;
+      {  // an attribute that the ENCODER quantised (float32 with quantisation bits in effect) and whose type is skipped must come back as integers
+         // with a transform description: "it decoded to the same floats" is not what the option promises
+        int ia = -1;
+        for (int k = 0; k < in.num_attributes(); ++k) if (in.attribute(k)->unique_id() == na->unique_id()) ia = k;
+        if (ia >= 0 && skipped_type && in.attribute(ia)->data_type() == DT_FLOAT32) {
+          int eff = ia;   // the type-keyed Encoder API: the first attribute of the type decides for all of them
+          if (!o.expert) for (int k = 0; k < in.num_attributes(); ++k) if (in.attribute(k)->attribute_type() == in.attribute(ia)->attribute_type()) { eff = k; break; }
+          const bool quantised = (size_t)eff < o.qbits.size() && o.qbits[eff] > 0;
+          if (quantised && !has_transform) { ++skip_missing; }
+        }
+      }
       if (!has_transform) {
         // Attribute without transform data.  If its type is not skipped it must be identical in both decodes.  If its type IS skipped and it
         // is an integer attribute, the decoder by design hands out its portable (int32) form: same unique id, same components, numerically
@@ -247,7 +259,7 @@ static void run_case(const Geom &g, const Opt &o, bool emit, int big_threshold) 
     }
   }
   sk += "]";
-  out.raw("skip", sk).b("skip_rest_same", rest_same).s("skip_rest_why", rest_why);
+  out.raw("skip", sk).i("skip_missing", skip_missing).b("skip_rest_same", rest_same).s("skip_rest_why", rest_why);
   out.end();
 }
 
